@@ -383,4 +383,129 @@ Section P.
     - cbn [cont own nxt pool]. unfold drop_all. now rewrite Hj.
     - auto.
   Qed.
+
+  (* ------------------------------------------------------------------------------------------ *)
+  (* histories *)
+
+  Lemma run_app h1 : forall s h2, run s (h1 ++ h2) = run (run s h1) h2.
+  Proof. induction h1 as [|o h1 IH]; intros s h2; cbn; [reflexivity | apply IH]. Qed.
+
+  Lemma wf_histb_app h1 : forall s h2,
+    wf_histb s (h1 ++ h2) = true -> wf_histb s h1 = true /\ wf_histb (run s h1) h2 = true.
+  Proof.
+    induction h1 as [|o h1 IH]; intros s h2 H; cbn in *; [now split|].
+    apply andb_true_iff in H. destruct H as [Ho H]. destruct (IH _ _ H) as [H1 H2].
+    rewrite Ho, H1. now split.
+  Qed.
+
+  Theorem run_inv : forall h s, Inv s -> wf_histb s h = true -> Inv (run s h).
+  Proof.
+    induction h as [|o h IH]; intros s HI Hwf; cbn in *; [assumption|].
+    apply andb_true_iff in Hwf. destruct Hwf as [Ho Hh]. apply IH; [|assumption]. now apply step_inv.
+  Qed.
+
+  Lemma reach_own s r t : Inv s -> own s r = Live t -> forall i, reach (cont s) r i -> own s i = Live t.
+  Proof.
+    intros HI Hr i Hre. induction Hre as [i | i f k j Hin Hre IH]; [assumption|].
+    apply IH. destruct (m_closed _ _ HI i t f k Hr Hin) as [H|[H _]]; [assumption | discriminate].
+  Qed.
+
+  (* every object has at most one holder: the pools never hold an object twice, no caller-held tree
+     reaches a pooled object, and no object is reachable from the trees of two different holders *)
+  Theorem no_double_ownership : forall h, wf_histb init h = true ->
+    let s := run init h in
+    NoDup (pool s) /\
+    (forall r t i, own s r = Live t -> reach (cont s) r i -> ~ In i (pool s)) /\
+    (forall r r' t t' i, own s r = Live t -> own s r' = Live t' ->
+                         reach (cont s) r i -> reach (cont s) r' i -> t = t').
+  Proof.
+    intros h Hwf s. assert (HI : Inv s) by (apply run_inv; [apply inv_init | assumption]).
+    split; [apply (m_nodup _ _ HI)|]. split.
+    - intros r t i Hr Hre Hp. apply (m_pool _ _ HI) in Hp.
+      rewrite (reach_own s r t HI Hr i Hre) in Hp. discriminate.
+    - intros r r' t t' i Hr Hr' Hre Hre'.
+      pose proof (reach_own s r t HI Hr i Hre) as H1. pose proof (reach_own s r' t' HI Hr' i Hre') as H2.
+      congruence.
+  Qed.
+
+  Lemma run_frame : forall h s t, Inv s -> wf_histb s h = true ->
+    Forall (fun o => actor o <> Some t) h ->
+    forall j, own s j = Live t -> cont (run s h) j = cont s j /\ own (run s h) j = Live t.
+  Proof.
+    induction h as [|o h IH]; intros s t HI Hwf Ha j Hj; cbn in *; [now split|].
+    apply andb_true_iff in Hwf. destruct Hwf as [Ho Hh]. inversion Ha as [|? ? Ha1 Ha2]; subst.
+    destruct (step_frame s o t HI Ho Ha1 j Hj) as [C O].
+    destruct (IH (step s o) t (step_inv s o HI Ho) Hh Ha2 j O) as [C' O']. split; congruence.
+  Qed.
+
+  Lemma view_ext fuel : forall c c' i, (forall j, reach c i j -> c' j = c j) -> view fuel c' i = view fuel c i.
+  Proof.
+    induction fuel as [|fuel IH]; intros c c' i H; [reflexivity|].
+    cbn [view]. rewrite (H i (reach_refl c i)). f_equal. apply map_ext_in.
+    intros [f k] Hin. cbn. f_equal. apply IH. intros j Hj. apply H. eapply reach_step; eauto.
+  Qed.
+
+  (* whatever happens later (parses, releases of other trees, pool gets and puts by anybody else, garbage
+     collection), a tree that its holder has not released looks the same and stays the holder's *)
+  Theorem held_results_stable : forall h s t r, Inv s -> wf_histb s h = true ->
+    Forall (fun o => actor o <> Some t) h -> own s r = Live t ->
+    (forall fuel, view fuel (cont (run s h)) r = view fuel (cont s) r) /\
+    (forall i, reach (cont s) r i -> own (run s h) i = Live t /\ ~ In i (pool (run s h))).
+  Proof.
+    intros h s t r HI Hwf Ha Hr. split.
+    - intros fuel. apply view_ext. intros j Hj.
+      apply (run_frame h s t HI Hwf Ha j). eapply reach_own; eauto.
+    - intros i Hi. assert (Ho : own s i = Live t) by (eapply reach_own; eauto).
+      destruct (run_frame h s t HI Hwf Ha i Ho) as [_ O]. split; [assumption|].
+      intros Hp. apply (m_pool _ _ (run_inv h s HI Hwf)) in Hp. congruence.
+  Qed.
+
+  Theorem held_results_stable_from_init : forall h1 h2 t r,
+    wf_histb init (h1 ++ h2) = true -> Forall (fun o => actor o <> Some t) h2 ->
+    own (run init h1) r = Live t ->
+    (forall fuel, view fuel (cont (run init (h1 ++ h2))) r = view fuel (cont (run init h1)) r) /\
+    (forall i, reach (cont (run init h1)) r i ->
+               own (run init (h1 ++ h2)) i = Live t /\ ~ In i (pool (run init (h1 ++ h2)))).
+  Proof.
+    intros h1 h2 t r Hwf Ha Hr. destruct (wf_histb_app _ _ _ Hwf) as [W1 W2]. rewrite run_app.
+    apply held_results_stable; auto. apply run_inv; [apply inv_init | assumption].
+  Qed.
+
+  (* releasing tree t' leaves every other live tree exactly as it was *)
+  Theorem release_does_not_touch_other_trees : forall h t' r' t r,
+    wf_histb init (h ++ [Release t' r']) = true -> t <> t' ->
+    own (run init h) r = Live t ->
+    (forall fuel, view fuel (cont (run init (h ++ [Release t' r']))) r = view fuel (cont (run init h)) r) /\
+    (forall i, reach (cont (run init h)) r i ->
+               own (run init (h ++ [Release t' r'])) i = Live t /\ ~ In i (pool (run init (h ++ [Release t' r'])))).
+  Proof.
+    intros h t' r' t r Hwf Hne Hr. apply held_results_stable_from_init; auto.
+    constructor; [|constructor]. cbn. congruence.
+  Qed.
 End P.
+
+(* slices and byte buffers: a result none of whose cells is written later reads the same *)
+Lemma wr_other m w a : a <> fst w -> wr m w a = m a.
+Proof. intros H. unfold wr. apply Nat.eqb_neq in H. now rewrite H. Qed.
+
+Theorem alias_free_stable : forall ws m cells,
+  disjointb cells ws = true -> read (wr_all m ws) cells = read m cells.
+Proof.
+  induction ws as [|w ws IH]; intros m cells H; [reflexivity|].
+  cbn in H. apply andb_true_iff in H. destruct H as [Hw H]. cbn. unfold wr_all in IH. rewrite IH by assumption.
+  unfold read. apply map_ext_in. intros a Ha. apply wr_other. intros ->.
+  apply negb_true_iff in Hw. apply memb_false in Hw. contradiction.
+Qed.
+
+(* The no-double-Put flag is necessary: a release that meets one object through two descended slots
+   Puts it twice, and the pool then hands the same object to two different holders. *)
+Example shared_child_is_put_twice :
+  let P := fun _ : N => true in let F := fun _ : N => false in
+  let D := fun _ _ : N => true in let K := fun _ _ : N => false in
+  let h := [Alloc 0 1%N; Alloc 0 2%N; Write 0 0 (mkNode 1%N 0%N [(0%N, 1); (1%N, 1)])] in
+  let s := run P F D K 10 3 init h in
+  wf_histb P F D K 10 3 init h = true /\
+  wf_opb P F D K 10 3 s (Release 0 0) = false /\
+  let s' := run P F D K 10 3 s [Release 0 0; Get 1 1] in
+  wf_opb P F D K 10 3 s' (Get 2 1) = true /\ own s' 1 = Live 1.
+Proof. vm_compute. repeat split. Qed.
